@@ -8,6 +8,7 @@ import (
 	"hash/fnv"
 	"os"
 	"path/filepath"
+	"runtime/debug"
 	"sort"
 	"strconv"
 	"strings"
@@ -199,7 +200,18 @@ func exec1[C any](r *Runner, c *C, check func(*Env, *C) error) (err error) {
 	defer func() {
 		RemoveAllForce(dir)
 	}()
-	err = check(env, c)
+	func() {
+		// a panic in the code under test is a failure of the case, with a replay file
+		defer func() {
+			if p := recover(); p != nil {
+				if inc, ok := p.(Inconclusive); ok {
+					panic(inc)
+				}
+				err = fmt.Errorf("panic: %v\n%s", p, debug.Stack())
+			}
+		}()
+		err = check(env, c)
+	}()
 	r.mu.Lock()
 	defer r.mu.Unlock()
 	r.evals++
